@@ -56,15 +56,33 @@ def worktree(i):
     return wt
 
 
+BASE = "1e40aea"  # the commit stage 1 ran on: line numbers in stage1.jsonl refer to it
+
+
+def base_lines(f):
+    return subprocess.run(["git", "-C", "/repo", "show", f"{BASE}:ecs/{f}"], capture_output=True, text=True, check=True).stdout.split("\n")
+
+
 def apply(wt, mut):
+    """Applies a stage-1 mutant to the current /repo sources: the mutated line is located by its text (nearest occurrence
+    to its old position), so that later fix commits do not shift it. Returns False if the line no longer exists."""
     f, i, op, new = mut
     path = f"{wt}/ecs/{f}"
+    old = base_lines(f)
     lines = open(f"/repo/ecs/{f}").read().split("\n")
+    text = old[i]
+    cands = [j for j, l in enumerate(lines) if l == text]
+    if not cands:
+        return False
+    # prefer the occurrence with the same neighbours, else the nearest
+    ctx = [j for j in cands if 0 < j < len(lines) - 1 and 0 < i < len(old) - 1 and lines[j - 1] == old[i - 1] and lines[j + 1] == old[i + 1]]
+    j = min(ctx or cands, key=lambda j: abs(j - i))
     if op == "DEL":
-        del lines[i]
+        del lines[j]
     else:
-        lines[i] = new
+        lines[j] = new
     open(path, "w").write("\n".join(lines))
+    return True
 
 
 def restore(wt, mut):
@@ -94,7 +112,9 @@ def stage2_one(args):
     idx, mut = args
     wid = 100 + (os.getpid() % 64)
     wt = worktree(wid)
-    apply(wt, mut)
+    subprocess.run(["git", "-C", wt, "checkout", "-q", "--detach", subprocess.run(["git", "-C", "/repo", "rev-parse", "HEAD"], capture_output=True, text=True).stdout.strip()])
+    if not apply(wt, mut):
+        return dict(id=idx, mut=mut, caught=[], inconclusive=[], gone=True)
     scratch = f"/tmp/ms_{wid}"
     shutil.rmtree(scratch, ignore_errors=True)
     os.makedirs(scratch)
@@ -137,25 +157,41 @@ def main():
     elif cmd == "stage2":
         surv = [json.loads(l) for l in open(os.path.join(OUT, "stage1.jsonl")) if '"survived"' in l]
         random.Random(11).shuffle(surv)
+        done = set()
+        p2 = os.path.join(OUT, "stage2.jsonl")
+        if os.path.exists(p2):
+            for l in open(p2):
+                r = json.loads(l)
+                if r.get("caught") or r.get("gone") or not r.get("inconclusive"):
+                    done.add(r["id"])
+                else:
+                    done.discard(r["id"])
+        surv = [s_ for s_ in surv if s_["id"] not in done]
         limit = int(sys.argv[2]) if len(sys.argv) > 2 else len(surv)
         surv = surv[:limit]
         print(len(surv), "survivors to evaluate")
-        with Pool(int(os.environ.get("MUT_WORKERS", "4"))) as pool, open(os.path.join(OUT, "stage2.jsonl"), "a") as f:
-            for r in pool.imap_unordered(stage2_one, [(s["id"], tuple(s["mut"])) for s in surv]):
+        with Pool(int(os.environ.get("MUT_WORKERS", "4"))) as pool, open(p2, "a") as f:
+            for r in pool.imap_unordered(stage2_one, [(s_["id"], tuple(s_["mut"])) for s_ in surv]):
                 f.write(json.dumps(r) + "\n")
                 f.flush()
+                if shutil.disk_usage("/").free < 40e9:
+                    subprocess.run(["go", "clean", "-cache"], env=ENV)
     elif cmd == "report":
         s1 = [json.loads(l) for l in open(os.path.join(OUT, "stage1.jsonl"))]
         from collections import Counter
         print("stage1:", Counter(r["result"] for r in s1))
         p2 = os.path.join(OUT, "stage2.jsonl")
         if os.path.exists(p2):
-            s2 = [json.loads(l) for l in open(p2)]
+            last = {}
+            for l in open(p2):
+                r = json.loads(l)
+                last[r["id"]] = r
+            s2 = [r for r in last.values() if not r.get("gone")]
             print("stage2:", len(s2), "evaluated;", sum(1 for r in s2 if r["caught"]), "caught;", sum(1 for r in s2 if not r["caught"]), "not caught")
             for r in s2:
                 if not r["caught"]:
                     f, i, op, new = r["mut"]
-                    orig = open(f"/repo/ecs/{f}").read().split("\n")[i]
+                    orig = base_lines(f)[i]
                     print(f"  MISSED {f}:{i+1} {op}: {orig.strip()[:110]}  ->  {new.strip()[:110]}  inconclusive={r['inconclusive']}")
     elif cmd == "cleanup":
         for d in os.listdir("/tmp"):
